@@ -7,6 +7,7 @@ import (
 	"encoding/hex"
 	"fmt"
 	"strings"
+	"time"
 
 	"github.com/ethereum/go-ethereum/crypto"
 	"github.com/shutter-network/shutter/shlib/shcrypto"
@@ -60,7 +61,7 @@ type SimOp struct {
 	Ids  []int  `json:"ids,omitempty"`  // T: positions of the identities the trigger names (default: all)
 	Slot int64  `json:"slot,omitempty"` // T (Gnosis): slot and tx pointer of the trigger row (default SimSlot, SimTxp)
 	Txp  int64  `json:"txp,omitempty"`
-	Msg  int    `json:"msg,omitempty"`  // D: message number
+	Msg  int    `json:"msg,omitempty"` // D: message number
 }
 
 type simMsg struct {
@@ -82,6 +83,9 @@ func NewSimPool(run *vh.Run, nodes int) *SimPool {
 	for i := 0; i < nodes; i++ {
 		w := NewWorld(run, nil)
 		w.NoMemStats = true
+		// many simulations share the machine with other checks; a slow call is not a hang (hangs
+		// are C05's subject, with its own watchdog)
+		w.Timeout = 3 * time.Minute
 		p.worlds = append(p.worlds, w)
 	}
 	return p
@@ -185,7 +189,6 @@ func (p *SimPool) keyCorrect(mat *Material, ident, key []byte) bool {
 	}
 	return bytes.Equal(key, mat.Bytes(Val{Kind: "key", Set: 0, Ident: hex.EncodeToString(ident)}))
 }
-
 
 // Sim runs one schedule on worlds[base .. base+N] (base+N: the access node's world).
 func (p *SimPool) Sim(base int, c SimConfig, ops []SimOp) *SimResult {
@@ -367,6 +370,9 @@ func (p *SimPool) Sim(base int, c SimConfig, ops []SimOp) *SimResult {
 		w.Srv.SetRowOrder(nil)
 		if h.Exec.Crashed() {
 			st.Crash += "handle: " + h.Exec.Panic
+			if h.Exec.Timeout {
+				st.Crash += "(no return within the watchdog time)"
+			}
 		}
 		if ks, ok := m.pm.(*p2pmsg.DecryptionKeyShares); ok && j < nn {
 			var ids []string
